@@ -5,6 +5,7 @@ CONSTANTS
   HasHf = TRUE
   Absent0 = {}
   Admin = FALSE
+  TrackRep = FALSE
   AlwaysW = TRUE
   AlwaysPRs = TRUE
   Cmds = {}
